@@ -134,4 +134,7 @@ def build_infos(infos: list[dict]):
             ris.append(SsbRoutineInfo(t, int(tg[2:]) if tg else 0))
         if t == SsbRoutineType.COROUTINE:
             coros.append(SsbCoroutine(i, inf["coro"]))
+    # the coroutine table of a binary is a global list: it is neither sorted by routine nor restricted to this script
+    if len(coros) >= 1:
+        coros = list(reversed(coros)) + [SsbCoroutine(len(infos) + 5, "CORO_NOT_IN_THIS_SCRIPT")]
     return ris, coros
